@@ -3,6 +3,7 @@ package harness
 import (
 	"fmt"
 	"sort"
+	"strings"
 
 	"verifharness/refmatch"
 )
@@ -162,4 +163,38 @@ func originOf(s *MSess) string {
 		return "unknown"
 	}
 	return s.Origin
+}
+
+// unexpectedCause names, for reports and known-finding matching, the most specific structural reason why
+// the broker might have delivered a publish the model says the session is not entitled to.
+func unexpectedCause(s *MSess, topic string, accepted bool) string {
+	if !accepted {
+		return "publish-must-not-be-routed"
+	}
+	if s == nil {
+		return "session-unknown-to-model"
+	}
+	dollar := strings.HasPrefix(topic, "$")
+	for _, sub := range s.Subs {
+		f := sub.Filter
+		up := strings.ToUpper(f)
+		if strings.HasPrefix(up, "$SHARE/") && !strings.HasPrefix(f, "$share/") {
+			return "share-prefix-not-lower-case"
+		}
+		_, inner, sh := refmatch.SplitShare(f)
+		lead := f
+		if sh {
+			lead = inner
+		}
+		if dollar && (strings.HasPrefix(lead, "+") || strings.HasPrefix(lead, "#")) {
+			if sh {
+				return "shared-leading-wildcard-matches-dollar-topic"
+			}
+			return "leading-wildcard-matches-dollar-topic"
+		}
+	}
+	if len(s.Subs) == 0 {
+		return "session-holds-no-subscription"
+	}
+	return "no-matching-subscription"
 }
